@@ -314,8 +314,13 @@ func c16Run(st *vstat.Stats, p c16Plan) *viol {
 	if err := rd.IgnoreMessages(idList, false); err != nil {
 		return violf("ignore-failed", "%v", err)
 	}
-	if err := rd.IgnoreMessages(offList, true); err != nil {
-		return violf("ignore-failed", "%v", err)
+	// the offset list arrives in instalments (start-up flags, then a state reset with more offsets, then one with none):
+	// what was ignored stays ignored until UnignoreMessages
+	cut := len(p.ReadFrom) % (len(offList) + 1)
+	for _, part := range [][]string{offList[:cut], offList[cut:], nil} {
+		if err := rd.IgnoreMessages(part, true); err != nil {
+			return violf("ignore-failed", "%v", err)
+		}
 	}
 	for _, r := range p.ReadFrom {
 		k := r % (total + 2)
